@@ -47,6 +47,12 @@ THEOREMS = [
     "persist_selected_reads_back",
     "mapped_checker_selects",
     "reserved_key_breaks_roundtrip",
+    "strlist_overwrite_roundtrip",
+    "strlist_twice",
+    "list_overwrite_roundtrip",
+    "map_overwrite_roundtrip",
+    "string_overwrite_roundtrip",
+    "unselected_overwrite_keeps",
     "list_key_order_below_256",
     "list_key_order_breaks_at_256",
     "cursor_walk_breaks_roundtrip",
@@ -80,7 +86,12 @@ RULE = ("compound keys: every list of <=3 elements over a 7-string pool, every p
         "paths, a store without parent; sizes: lists / maps / string lists / compound keys of 255, 256, 257, 258, "
         "300, 511, 512, 513, 1000 elements (to 4097 thorough) top level, nested, over a longer / shorter "
         "predecessor, pairwise distinct elements; keys / elements / field names of 126..129, 254..257, 16383, "
-        "16384 bytes. "
+        "16384 bytes; overwrite sequences on one key (every prefix is a case): every ordered pair of string lists of "
+        "<=3 elements over {a,b,c} through SetStringList / GetAndSetStringList, every pair of PutList lists of <=3 "
+        "elements over {null,'a',int32 1}, pairs of maps over keys {a,b} with values {null,'',int32 1,{},[]} nested "
+        "and flat, every pair of 22 scalar setter/value forms, pairs and triples of container kinds with the same "
+        "members, value-over-bucket refusals, random triples; same and later transaction; nil / selecting / "
+        "non-selecting checker on the last write. "
         "non-trivial = the spec demands at least one read value (entity scripts) / the list is non-empty "
         "(compound keys); distinct = distinct case line")
 
